@@ -7,18 +7,44 @@ class C03(Prop):
     id = "C03"
     title = "NGAP messages are encoded exactly as X.691 aligned PER / TS 38.413 prescribe"
     lean_module = "Stgutg.Props.C03"
+    extra_modules = ["Stgutg.Props.C03Schema"]
     gen = ["schema", "registry"]
     theorems = [
-        "Stgutg.Props.C03.tags_are_ts38413", "Stgutg.Props.C03.table_names_distinct",
+        "Stgutg.Props.C03.schema_is_ts38413", "Stgutg.Props.C03.tags_are_ts38413", "Stgutg.Props.C03.table_names_distinct",
+        # (a) primitives: model = X.691 clause, all inputs in the stated domain
+        "Stgutg.Props.C03.constrained_eq", "Stgutg.Props.C03.length_eq", "Stgutg.Props.C03.length_constrained_eq",
+        "Stgutg.Props.C03.integer_eq", "Stgutg.Props.C03.enumerated_eq", "Stgutg.Props.C03.bit_string_eq",
+        "Stgutg.Props.C03.octet_string_eq", "Stgutg.Props.C03.choice_index_eq",
+        # (b) composite types, every schema passing specOK
+        "Stgutg.Props.C03.encode_eq_spec", "Stgutg.Props.C03.encode_refuses",
+        "Stgutg.Proofs.AperSpec.encode_eq_spec", "Stgutg.Proofs.AperSpec.nonEmptyEnc_sound",
+        "Stgutg.Proofs.AperSpec.marshal_eq_spec", "Stgutg.Proofs.AperSpec.marshal_refuses",
+        # (c) the regenerated NGAP schema
+        "Stgutg.Props.C03.ngap_schema_specOK", "Stgutg.Props.C03.pdu_params_ok", "Stgutg.Props.C03.valueExt_params_ok",
+        "Stgutg.Props.C03.C03_encode_canonical", "Stgutg.Props.C03.C03_refuses",
+        "Stgutg.Props.C03.C03_container_canonical", "Stgutg.Props.C03.C03_container_refuses",
     ]
     domains = [Domain("aper-enc", 600, 30000)]
     rule = ("aper-enc: type-directed random values over the real ngapType structs (all message types through NGAPPDU's open types, "
             "transfer containers, every leaf wrapper type at lb, ub, lb+1, ub-1 and power-of-two boundaries), one in eight with exactly one "
             "injected constraint violation (integer/size/enum out of range, Present 0 / too large, nil mandatory pointer, open type "
             "reference mismatch); non-trivial = value with at least 12 tokens; distinct by op line")
-    level_text = ("Theorems: the encoder model equals the X.691 ALIGNED PER specification on conforming values and refuses the others; "
-                  "schema regenerated from the struct tags; model tied to marshal.go by a differential run")
-    technique = "Lean 4 proof (model = X.691 spec) + schema translator + differential correspondence"
+    level_text = ("Theorems (Lean 4, no schema-specific reasoning): for every schema passing the decidable specOK (decided for the regenerated "
+                  "NGAP schema by the kernel), every type/parameter string and every regular value (int64 integers, BitString with "
+                  "ceil(n/8) octets, CHOICE with only the selected alternative set, strings and open-type contents below 16384 units), "
+                  "whatever bits the encoder model (marshal.go, branch for branch) produces are the bits the X.691 ALIGNED PER "
+                  "specification prescribes (encode_eq_spec, C03_encode_canonical, C03_container_canonical), and a value the specification "
+                  "does not encode is not put on the wire (encode_refuses, C03_refuses); per-clause theorems for constrained whole numbers, "
+                  "length determinants, INTEGER, ENUMERATED, BIT/OCTET STRING, CHOICE index; struct tags = hand-transcribed TS 38.413 "
+                  "constraints for 150 simple + 32 list types (tags_are_ts38413); model tied to marshal.go by the differential run, which also "
+                  "compares the implementation with the specification oracle directly")
+    technique = "Lean 4 proof (encoder model = X.691 specification, generic in the schema) + kernel-decided schema predicate + schema translator + differential correspondence"
+    partial_note = ("completeness (the model never refuses a value the specification encodes; Props.C03.EncodeCompleteStatement) is not proved: "
+                    "decided by the differential run only (impl vs spec oracle on conforming values); fragmented lengths (>= 16384) are outside "
+                    "the theorems as the property arranges; constraints of the types not tabled in Spec/Ts38413Leaf are trusted from the tags")
+    assumptions = ["values are regular Go representations (Stgutg.Proofs.AperSpec.regular): int64 integers, BitString.Bytes of exactly "
+                   "ceil(BitLength/8) octets, CHOICE structs with only the selected alternative non-nil",
+                   "every string is shorter than 16384 units and every open-type content shorter than 16384 octets (no fragmentation)"]
 
     def key(self, op, impl, model, spec):
         t = op.split(" ")
